@@ -283,6 +283,33 @@ func checkAuthenticator(c *Ctx, rule, fname string, fn *ssa.Function) {
 		c.R.Check(!mayBeNilConst(a, 0), rule, fname, fmt.Sprintf("verification argument %d is never the nil constant", i), c.pos(verify),
 			"argument "+ir.Desc(a)+" of the verification can be nil on some path (an empty key makes every client able to compute a valid signature)")
 	}
+	// a substitute key (used when the key store knows no key, so as not to disclose which authids exist) must be
+	// unguessable: it comes from crypto/rand in this activation; a non-random value may only stand in next to it
+	// (fallback for a failed random source), never replace it
+	for i, a := range verify.Call.Args {
+		if _, isSlice := a.Type().Underlying().(*types.Slice); !isSlice {
+			continue
+		}
+		var leaves []ssa.Value
+		keyLeaves(a, map[ssa.Value]bool{}, &leaves)
+		nStore, nFresh := 0, 0
+		var other []string
+		for _, l := range leaves {
+			switch d := ir.Desc(l); {
+			case strings.HasPrefix(d, "call:invoke:auth.KeyStore.") || strings.Contains(d, ".(*wamp.Authenticate),ok#0."):
+				nStore++
+			case freshRandom(l, 0):
+				nFresh++
+			default:
+				other = append(other, d)
+			}
+		}
+		if nStore == 0 || (len(other) == 0 && nFresh == 0) {
+			continue // no stored key flows here, or nothing stands in for it
+		}
+		c.R.Check(nFresh > 0, rule, fname, fmt.Sprintf("substitute for verification argument %d comes from crypto/rand", i), c.pos(verify),
+			"when the key store has no key the verification uses "+strings.Join(other, " / ")+", none of which reaches crypto/rand: a client that can guess it is welcomed under any unknown authid")
+	}
 	vd := regexpQuote(ir.Desc(verify))
 	for i, s := range succ {
 		g, _ := ir.GuardedBy(fn, s, clause("bypass or verification succeeded", bypass.Edges[0], T(`^`+vd+`(#0)?$`)))
@@ -525,4 +552,24 @@ func ruleSessionDetailsOrder(c *Ctx, r5 string) {
 	sessID := `^mapupdate:makemap\(wamp\.Dict\)\["session"\]=call:wamp\.GlobalID\(\)$`
 	c.Reach(r5, ac, "WELCOME details are copied after (over) HELLO details", ReachSpec{From: welcomeCopy, Target: helloCopy, Want: false})
 	c.Reach(r5, ac, "session id written after both copies", ReachSpec{From: sessID, Target: helloCopy + `|` + welcomeCopy, Want: false})
+}
+
+// keyLeaves flattens phis and conversions to the values that can flow into v.
+func keyLeaves(v ssa.Value, seen map[ssa.Value]bool, out *[]ssa.Value) {
+	if seen[v] {
+		return
+	}
+	seen[v] = true
+	switch x := v.(type) {
+	case *ssa.Phi:
+		for _, e := range x.Edges {
+			keyLeaves(e, seen, out)
+		}
+	case *ssa.Convert:
+		keyLeaves(x.X, seen, out)
+	case *ssa.MakeInterface:
+		keyLeaves(x.X, seen, out)
+	default:
+		*out = append(*out, v)
+	}
 }
